@@ -195,9 +195,11 @@ func (o *apiObjs) tenvArg(idx int) (arg interface{}, un bool) {
 		if t, ok := o.traw[idx]; ok {
 			return t, false
 		}
+		// a hand-written type environment: structurally identical composite types are one *Type
 		t := types.NewEnv()
+		tb := &typeBuilder{share: true}
 		for _, b := range arr(e["binds"]) {
-			t.Put(str(obj(b)["n"]), valFromJ(obj(obj(b)["v"])).Type)
+			t.Put(str(obj(b)["n"]), tb.build(typeOfValJ(obj(obj(b)["v"]))))
 		}
 		o.traw[idx] = t
 		return t, false
